@@ -29,6 +29,8 @@ rules = sorted(set(re.findall(r"^  rule=(\S+) instance=(.*)$", c.stdout, re.M)))
 meta["confirmation"] = {k: conf[k] for k in ("demo_clean_rc", "demo_patched_rc", "apply_rc", "suite_rc", "suite_summary", "confirmed")}
 meta["confirmation"]["demo_command"] = " ".join(cmd)
 meta["confirmation"]["demo_destination"] = dest
-meta["checks"] = {"patch_applies_to_current_repo": ap.returncode == 0, "exit_code": c.returncode, "caught_by": caught, "rules": ["%s[%s]" % r_ for r_ in rules][:8], "target_property_caught": prop in caught}
+target = meta.get("property") or prop[:3]
+meta["checks"] = {"patch_applies_to_current_repo": ap.returncode == 0, "exit_code": c.returncode, "caught_by": caught, "rules": ["%s[%s]" % r_ for r_ in rules][:8], "target_property_caught": target in caught}
+meta["base_commit"] = subprocess.run(["git", "-C", wt, "rev-parse", "--short", "HEAD"], stdout=subprocess.PIPE, text=True).stdout.strip()
 json.dump(meta, open(out + "/meta.json", "w"), indent=1)
-print(prop, n, "confirmed=%s" % conf["confirmed"], "caught_by=%s" % caught, "target=%s" % (prop in caught), [r_[0] + "[" + r_[1] + "]" for r_ in rules][:4])
+print(prop, n, "confirmed=%s" % conf["confirmed"], "caught_by=%s" % caught, "target=%s" % (target in caught), [r_[0] + "[" + r_[1] + "]" for r_ in rules][:4])
